@@ -10,7 +10,7 @@ func init() {
 	extraLemmaFuncs = append(extraLemmaFuncs, "capnp.canonicalPtr", "capnp.Canonicalize")
 	Register(&Spec{
 		ID:          "C18",
-		Explanation: "Decides structural necessary conditions of canonicalisation: (R1) the data-only bulk-copy path of canonicalList is taken only for lists that are neither composite nor pointer-bearing, so composite lists always get a tag word and per-element truncation; (R2) every struct emitted (root, pointer fields, every composite-list element) is sized by canonicalStructSize of its source, and (R2e, on SSA values, not names) the element size handed to NewCompositeList is an accumulator every update of which stores a component of canonicalStructSize(src.Struct(i)) under accumulated < element, in a loop from 0 while i < src.Len(); (R5s) a window from Segment.slice is not used after a call that can allocate (the single output segment grows by copying); (R3) capabilities are rejected with an error and the output is the data of one fresh single-segment message; (R4) children are allocated in pre-order (a child is allocated by canonicalPtr after its parent and before the next sibling, then linked), and every error propagates. (R4e) no error test on a value already known to be nil whose branch handles another, untested error. Does NOT decide byte-identity across layouts or idempotence as value-level facts.",
+		Explanation: "Decides structural necessary conditions of canonicalisation: (R1) the data-only bulk-copy path of canonicalList is taken only for lists that are neither composite nor pointer-bearing, so composite lists always get a tag word and per-element truncation; (R2) every struct emitted (root, pointer fields, every composite-list element) is sized by canonicalStructSize of its source, and (R2e, on SSA values, not names) the element size handed to NewCompositeList is an accumulator every update of which stores a component of canonicalStructSize(src.Struct(i)) under accumulated < element, in a loop from 0 while i < src.Len(); (R5s) a window from Segment.slice is not used after a call that can allocate (the single output segment grows by copying); (R3) capabilities are rejected with an error and the output is the data of one fresh single-segment message; (R4) children are allocated in pre-order (a child is allocated by canonicalPtr after its parent and before the next sibling, then linked), and every error propagates. (R4e) no error test on a value already known to be nil whose branch handles another, untested error. (R4v) the values of canonicalPtr, Struct.Ptr and PointerList.At are used only where their error was tested; (R4t) a detected error is not lost. Does NOT decide byte-identity across layouts or idempotence as value-level facts.",
 		Run:         runC18,
 	})
 }
@@ -52,6 +52,11 @@ func runC18(ctx *Ctx) {
 		// C05-R2 and C03-R2) — the canonical bytes must not depend on either
 		ruleKernelLemmas(ctx, "C18-R2", []string{"capnp.canonicalPtr", "capnp.Canonicalize", "capnp.(List).allocSize", "capnp.(*Segment).resolveFarPointer"})
 	}
+	// a child that could not be canonicalised (a capability below it, a limit
+	// reached) must fail the whole: the value of canonicalPtr, Ptr and At is
+	// used only where their error was tested (shared with C01-R3)
+	ruleCheckedResultsIn(ctx, "C18-R4v", func(n string) bool { return strings.Contains(n, "anonical") })
+	ruleDetectedErrorNotLost(ctx, "C18-R4t", func(n string) bool { return strings.Contains(n, "anonical") }, detectedErrorExempt)
 	ruleCanonicalElemSize(ctx, "C18-R2e")
 	ruleNoSliceAcrossAlloc(ctx, "C18-R5s")
 	// the truncation scan addresses words of the struct it measures: unchecked
